@@ -206,10 +206,11 @@ PROPS = {
         "profiles": [{"name": "fleet-bucket", "weight": 2, "race": True, "chunk": 40, "env": {"LSSIM_KEEP_HEALTH": 1, "LSSIM_PROPERTY": "C17"}},
                      {"name": "fleet-converge", "weight": 1, "race": True, "chunk": 40, "env": {"LSSIM_KEEP_HEALTH": 1, "LSSIM_PROPERTY": "C17"}},
                      {"name": "fleet-delete", "weight": 1, "race": True, "chunk": 40, "env": {"LSSIM_KEEP_HEALTH": 1, "LSSIM_PROPERTY": "C17"}},
+                     {"name": "fleet-hostile", "weight": 1, "race": True, "chunk": 40, "env": {"LSSIM_KEEP_HEALTH": 1, "LSSIM_PROPERTY": "C17"}},
                      {"name": "fleet-bucket", "weight": 1, "env": {"LSSIM_PROPERTY": "C17"}},
                      {"name": "conc-inst", "weight": 2, "chunk": 1, "env": {"LSSIM_MIN_TRIALS": 0}}],
-        "quick_s": 60,
-        "rule": "race part: the fleet-bucket (cleaners on, crashes, faults), fleet-converge and fleet-delete (tomb sweeper on in a third of the runs) profiles run in the -race build with the health tracker goroutines left running; the scheduler hides its own hand-off from the detector "
+        "quick_s": 75,
+        "rule": "race part: the fleet-bucket (cleaners on, crashes, faults), fleet-converge, fleet-delete (tomb sweeper on in a third of the runs) and fleet-hostile (undecodable blobs: the corrupt-snapshot paths) profiles run in the -race build with the health tracker goroutines left running; the scheduler hides its own hand-off from the detector "
                 "(runtime.RaceDisable around park/release), so each run is a happens-before race check of exactly the interleaving it executed; only reports in which at least one of the two "
                 "conflicting accesses is made by repository code count; deadlock part (conc-inst; a third of its runs are API-level schedules as described here, the rest statement-level): seeded API-level schedules over utils/topics (publish, subscribe, next, close incl. close "
                 "while a publish to that subscriber is in flight, failing Handle callback), utils/climit (release from any goroutine, repeatedly) and snapshot/storage (GetGlobal before, "
